@@ -41,20 +41,20 @@ MODULES = {
                  calls={'self.scale': 'index_scale'}),
             # Variable.bounds, specialised per behaviour class (receiver of .scale) with both limits given
             dict(name='bounds_radius', file=V + 'variable.py', cls='Variable', func='bounds',
-                 static={'self.min_val': 'notnone', 'self.max_val': 'notnone'},
+                 static={'self.min_val': 'notnone', 'self.max_val': 'notnone'}, types={'self.apply_scaling': 'bool'},
                  calls={'self.variable.scale': 'radius_scale'}),
             dict(name='bounds_thickness', file=V + 'variable.py', cls='Variable', func='bounds',
-                 static={'self.min_val': 'notnone', 'self.max_val': 'notnone'},
+                 static={'self.min_val': 'notnone', 'self.max_val': 'notnone'}, types={'self.apply_scaling': 'bool'},
                  calls={'self.variable.scale': 'thickness_scale'}),
             dict(name='bounds_index', file=V + 'variable.py', cls='Variable', func='bounds',
-                 static={'self.min_val': 'notnone', 'self.max_val': 'notnone'},
+                 static={'self.min_val': 'notnone', 'self.max_val': 'notnone'}, types={'self.apply_scaling': 'bool'},
                  calls={'self.variable.scale': 'index_scale'}),
             dict(name='bounds_asphere', file=V + 'variable.py', cls='Variable', func='bounds',
                  static={'self.min_val': 'notnone', 'self.max_val': 'notnone'},
-                 types={'self.variable.coeff_number': 'int'},
+                 types={'self.variable.coeff_number': 'int', 'self.apply_scaling': 'bool'},
                  calls={'self.variable.scale': 'asphere_scale'}),
             dict(name='bounds_identity', file=V + 'variable.py', cls='Variable', func='bounds',
-                 static={'self.min_val': 'notnone', 'self.max_val': 'notnone'},
+                 static={'self.min_val': 'notnone', 'self.max_val': 'notnone'}, types={'self.apply_scaling': 'bool'},
                  calls={'self.variable.scale': 'base_scale'}),
             # operand residual
             dict(name='operand_delta', file=OP, cls='Operand', func='delta'),
